@@ -94,6 +94,9 @@ type RInput struct {
 	Generation      int     `json:"generation"`
 	RollbackInBatch bool    `json:"rollback_in_batch"`
 	BlueGreen       bool    `json:"bluegreen,omitempty"` // blue-green strategy instead of canary (engine rolloutbg)
+	// the strategy was switched from canary to blue-green after a canary release completed: status.canaryStatus is still there,
+	// status.blueGreenStatus is nil.  The blue-green manager then works without a sub-status (the model's view: sub = None)
+	StaleCanary bool `json:"stale_canary,omitempty"`
 	FT              *IOS    `json:"ft,omitempty"`
 	Status          RStatus `json:"status"`
 	W               RWl     `json:"w"`
@@ -584,7 +587,7 @@ func buildRolloutObjects(in RInput, ext *TRExt) ([]client.Object, *v1beta1.Rollo
 			CurrentStepState: v1beta1.CanaryStepState(s.State), FinalisingStep: v1beta1.FinalisingStepType(s.Fin), LastUpdateTime: &t},
 			CanaryRevision: s.CanaryRev, CanaryReplicas: int32(s.CReplicas), CanaryReadyReplicas: int32(s.CReady)}
 		ro.Status.CurrentStepIndex, ro.Status.CurrentStepState = int32(s.Idx), v1beta1.CanaryStepState(s.State)
-		if in.BlueGreen {
+		if in.BlueGreen && !in.StaleCanary {
 			cs := ro.Status.CanaryStatus
 			ro.Status.BlueGreenStatus = &v1beta1.BlueGreenStatus{CommonStatus: cs.CommonStatus, UpdatedRevision: cs.CanaryRevision, UpdatedReplicas: cs.CanaryReplicas,
 				UpdatedReadyReplicas: cs.CanaryReadyReplicas}
@@ -660,6 +663,9 @@ func reconcileRolloutWorld(in RInput, ext *TRExt, objs []client.Object, ro *v1be
 		}
 		if c := util.GetRolloutCondition(s, v1beta1.RolloutConditionSucceeded); c != nil {
 			o.Succ = string(c.Status)
+		}
+		if in.StaleCanary {
+			s.CanaryStatus = nil // the blue-green manager's view
 		}
 		if bg := s.BlueGreenStatus; bg != nil && s.CanaryStatus == nil {
 			s.CanaryStatus = &v1beta1.CanaryStatus{CommonStatus: bg.CommonStatus, CanaryRevision: bg.UpdatedRevision, CanaryReplicas: bg.UpdatedReplicas, CanaryReadyReplicas: bg.UpdatedReadyReplicas}
